@@ -31,9 +31,9 @@ func init() {
 			"weights are matched in cyclic order from some offset; absolute alignment is not assumed",
 		},
 		Gen: func(tier string, seed uint64) []core.Case {
-			n, per, mt := 32, 100, 2000
+			n, per, mt := 96, 150, 2000
 			if tier == "thorough" {
-				n, per, mt = 160, 150, 86400
+				n, per, mt = 320, 150, 86400
 			}
 			var cs []core.Case
 			for i := 0; i < n; i++ {
